@@ -7,12 +7,14 @@
 // occurrence of the file in source order, numbered 0.., rendered as
 //
 //	D            recorded in Defs with an object whose Pos() is the identifier's own position
-//	D!<k>        recorded in Defs, object declared at the position of occurrence k (k != own)
-//	D!nopos      recorded in Defs, object has NoPos;  D!nil  Defs[id] == nil;  D!? other position
-//	U<k>         recorded in Uses, object declared at occurrence k
-//	Uuniv        recorded in Uses, object without position (universe / builtin / imported)
+//	D!<off>      recorded in Defs, object.Pos() is the file offset <off> (not the identifier's own)
+//	D!nopos      recorded in Defs, object has NoPos;  D!nil  Defs[id] == nil;  D!ext other file
+//	U<off>       recorded in Uses, object.Pos() is the file offset <off>
+//	Uuniv        recorded in Uses, object without position (universe / builtin)
 //	Uext         recorded in Uses, object declared outside this file
 //	-            not recorded
+//
+// followed by |scopes=<len(Info.Scopes)>|niltypes=<1 if Info.Types has a nil / position-less key>
 //
 // INV is the direct oracle: the invariants quoted in the doc comment of typesutil.Info evaluated
 // on the real Info (defs at own position, uses elsewhere, Types/Scopes nodes inside the file).
@@ -24,7 +26,6 @@ import (
 	"flag"
 	"fmt"
 	goast "go/ast"
-	"go/importer"
 	goparser "go/parser"
 	gotoken "go/token"
 	"go/types"
@@ -42,6 +43,7 @@ import (
 )
 
 var repo = flag.String("repo", "/repo", "repository root (importer root)")
+var impCache = flag.String("impcache", "", "file caching the export-data locations found by `go list -export` (speeds up start)")
 
 type occ struct {
 	id  *ast.Ident
@@ -121,6 +123,7 @@ func typeStr(o types.Object) string {
 }
 
 var sharedFset = token.NewFileSet()
+var goFset = gotoken.NewFileSet()
 var goImp types.Importer
 var xgoImp types.Importer
 
@@ -137,10 +140,15 @@ func check(kind, name, src string) (res result) {
 	}
 	f, err := parser.ParseEntry(fset, fname, src, parser.Config{Mode: parser.ParseComments})
 	if err != nil {
-		return result{"PARSEERR", "skip:parse", "n/a", "-"}
+		return result{"PARSEERR", "skip:parse:" + strings.ReplaceAll(strings.ReplaceAll(err.Error(), "\t", " "), "\n", " "), "n/a", "-"}
 	}
 	pkg := types.NewPackage("main", f.Name.Name)
-	conf := &types.Config{Importer: xgoImp, Error: func(error) {}}
+	var firstErr string
+	conf := &types.Config{Importer: xgoImp, Error: func(e error) {
+		if firstErr == "" {
+			firstErr = strings.ReplaceAll(strings.ReplaceAll(e.Error(), "\t", " "), "\n", " ")
+		}
+	}}
 	info := &typesutil.Info{
 		Types:      make(map[ast.Expr]types.TypeAndValue),
 		Defs:       make(map[*ast.Ident]types.Object),
@@ -153,13 +161,12 @@ func check(kind, name, src string) (res result) {
 	chk := typesutil.NewChecker(conf, &typesutil.Config{Types: pkg, Fset: fset, Mod: xgomod.Default}, nil, info)
 	cerr := chk.Files(nil, []*ast.File{f})
 	if cerr != nil {
-		return result{"CHECKERR", "skip:typecheck", "n/a", "-"}
+		if firstErr == "" {
+			firstErr = strings.ReplaceAll(strings.ReplaceAll(cerr.Error(), "\t", " "), "\n", " ")
+		}
+		return result{"CHECKERR", "skip:typecheck:" + firstErr, "n/a", "-"}
 	}
 	occs := collectIdents(f)
-	index := map[token.Pos]int{}
-	for i, o := range occs {
-		index[o.pos] = i
-	}
 	fpos, fend := f.Pos(), f.End()
 	tf := fset.File(fpos)
 	inFile := func(p token.Pos) bool { return p.IsValid() && fset.File(p) == tf }
@@ -179,10 +186,10 @@ func check(kind, name, src string) (res result) {
 			case !d.Pos().IsValid():
 				m = append(m, "D!nopos")
 			default:
-				if k, ok := index[d.Pos()]; ok {
-					m = append(m, fmt.Sprintf("D!%d", k))
+				if inFile(d.Pos()) {
+					m = append(m, fmt.Sprintf("D!%d", fset.Position(d.Pos()).Offset))
 				} else {
-					m = append(m, "D!?")
+					m = append(m, "D!ext")
 				}
 			}
 			if d != nil && d.Pos() != id.Pos() {
@@ -201,11 +208,7 @@ func check(kind, name, src string) (res result) {
 			case !inFile(u.Pos()):
 				m = append(m, "Uext")
 			default:
-				if k, ok := index[u.Pos()]; ok {
-					m = append(m, fmt.Sprintf("U%d", k))
-				} else {
-					m = append(m, "U?")
-				}
+				m = append(m, fmt.Sprintf("U%d", fset.Position(u.Pos()).Offset))
 			}
 			if u != nil && u.Pos() == id.Pos() {
 				viol = append(viol, fmt.Sprintf("use:%s@%s", id.Name, posStr(fset, id.Pos())))
@@ -258,7 +261,13 @@ func check(kind, name, src string) (res result) {
 		}
 	}
 	sort.Strings(viol)
-	res.mapS = strings.Join(m, " ")
+	nilTypes := 0
+	for _, v := range viol {
+		if strings.HasPrefix(v, "types:nilpos") {
+			nilTypes = 1
+		}
+	}
+	res.mapS = fmt.Sprintf("%s|scopes=%d|niltypes=%d", strings.Join(m, " "), len(info.Scopes), nilTypes)
 	if len(viol) == 0 {
 		res.inv = "ok"
 	} else {
@@ -275,99 +284,123 @@ func check(kind, name, src string) (res result) {
 }
 
 // compareGo type-checks the same text with go/types and compares, identifier by identifier
-// (matched by offset), name, object kind, type string and declaration position.
+// (matched by offset): whether an object is recorded, its name, its kind, its type string, and
+// WHICH identifier occurrence declares it (found through the Defs maps by object identity, so the
+// comparison does not depend on Object.Pos()).  Each difference is one item
+//
+//	<name>@<line>:<col>:<class>{go:...|xgo:...}     class = missing | extra | name | kind | type | decl
 func compareGo(fset *token.FileSet, fname, src string, occs []occ, info *typesutil.Info) (string, int, int) {
-	gfset := gotoken.NewFileSet()
+	gfset := goFset
 	gf, err := goparser.ParseFile(gfset, fname+".go", src, goparser.ParseComments)
 	if err != nil {
 		return "goparse-error", 0, 0
 	}
 	ginfo := &types.Info{Defs: map[*goast.Ident]types.Object{}, Uses: map[*goast.Ident]types.Object{}}
-	gconf := &types.Config{Importer: goImp, Error: func(error) {}}
-	if _, err := gconf.Check("main", gfset, []*goast.File{gf}, ginfo); err != nil {
-		return "gotypes-error", 0, 0
+	var gerr string
+	gconf := &types.Config{Importer: goImp, Error: func(e error) {
+		if gerr == "" {
+			gerr = e.Error()
+		}
+	}}
+	gconf.Check("main", gfset, []*goast.File{gf}, ginfo)
+	if gerr != "" {
+		return "gotypes-error:" + strings.ReplaceAll(strings.ReplaceAll(gerr, "\t", " "), "\n", " "), 0, 0
 	}
 	type gent struct {
-		def, use types.Object
-		isDef    bool
-		isUse    bool
+		obj          types.Object
+		isDef, isUse bool
 	}
 	byOff := map[int]gent{}
+	gDeclOff := map[types.Object]int{}
 	for id, o := range ginfo.Defs {
-		e := byOff[gfset.Position(id.Pos()).Offset]
-		e.def, e.isDef = o, true
-		byOff[gfset.Position(id.Pos()).Offset] = e
+		off := gfset.Position(id.Pos()).Offset
+		byOff[off] = gent{obj: o, isDef: true}
+		if o != nil {
+			if old, ok := gDeclOff[o]; !ok || off < old {
+				gDeclOff[o] = off
+			}
+		}
 	}
 	for id, o := range ginfo.Uses {
-		e := byOff[gfset.Position(id.Pos()).Offset]
-		e.use, e.isUse = o, true
-		byOff[gfset.Position(id.Pos()).Offset] = e
+		off := gfset.Position(id.Pos()).Offset
+		if _, dup := byOff[off]; !dup {
+			byOff[off] = gent{obj: o, isUse: true}
+		}
 	}
-	gpos := func(o types.Object) string {
-		if o == nil {
-			return "nil"
+	xDeclOff := map[types.Object]int{}
+	for id, o := range info.Defs {
+		if o != nil && id.Pos().IsValid() {
+			off := fset.Position(id.Pos()).Offset
+			if old, ok := xDeclOff[o]; !ok || off < old {
+				xDeclOff[o] = off
+			}
 		}
-		if !o.Pos().IsValid() {
-			return "nopos"
-		}
-		pp := gfset.Position(o.Pos())
-		if pp.Filename != fname+".go" {
-			return "ext"
-		}
-		return fmt.Sprintf("%d:%d", pp.Line, pp.Column)
 	}
-	xpos := func(o types.Object) string {
-		if o == nil {
-			return "nil"
+	declStr := func(m map[types.Object]int, o types.Object) string {
+		if off, ok := m[o]; ok {
+			return fmt.Sprint(off)
 		}
-		if !o.Pos().IsValid() {
-			return "nopos"
-		}
-		pp := fset.Position(o.Pos())
-		if pp.Filename != fname {
-			return "ext"
-		}
-		return fmt.Sprintf("%d:%d", pp.Line, pp.Column)
+		return "none"
 	}
 	var diffs []string
 	n, agree := 0, 0
 	for _, o := range occs {
 		off := fset.Position(o.pos).Offset
 		g := byOff[off]
+		var xo types.Object
 		xd, xIsDef := info.Defs[o.id]
 		xu, xIsUse := info.Uses[o.id]
-		var gs, xs string
-		switch {
-		case g.isDef:
-			gs = "def"
-			if g.def != nil {
-				gs = fmt.Sprintf("def %s %s %s", g.def.Name(), kindOf(g.def), typeStr(g.def))
-			}
-		case g.isUse:
-			gs = fmt.Sprintf("use %s %s %s @%s", g.use.Name(), kindOf(g.use), typeStr(g.use), gpos(g.use))
-		default:
-			gs = "-"
+		if xIsDef {
+			xo = xd
+		} else if xIsUse {
+			xo = xu
 		}
-		switch {
-		case xIsDef:
-			xs = "def"
-			if xd != nil {
-				xs = fmt.Sprintf("def %s %s %s", xd.Name(), kindOf(xd), typeStr(xd))
-			}
-		case xIsUse:
-			xs = fmt.Sprintf("use %s %s %s @%s", xu.Name(), kindOf(xu), typeStr(xu), xpos(xu))
-		default:
-			xs = "-"
-		}
-		if gs == "-" && xs == "-" {
+		gHas := g.obj != nil
+		xHas := xo != nil
+		if !gHas && !xHas {
 			continue
 		}
 		n++
-		if gs == xs {
-			agree++
-		} else {
-			diffs = append(diffs, fmt.Sprintf("%s@%s{go:%s|xgo:%s}", o.id.Name, posStr(fset, o.pos), gs, xs))
+		at := fmt.Sprintf("%s@%s", o.id.Name, posStr(fset, o.pos))
+		gs, xs := "-", "-"
+		if gHas {
+			gs = fmt.Sprintf("%s %s %s decl=%s", g.obj.Name(), kindOf(g.obj), typeStr(g.obj), declStr(gDeclOff, g.obj))
+			if g.isDef {
+				gs = "def " + gs
+			}
 		}
+		if xHas {
+			xs = fmt.Sprintf("%s %s %s decl=%s", xo.Name(), kindOf(xo), typeStr(xo), declStr(xDeclOff, xo))
+			if xIsDef {
+				xs = "def " + xs
+			}
+		}
+		class := ""
+		univ := func(o types.Object) bool { return o != nil && o.Pkg() == nil && !o.Pos().IsValid() }
+		if gHas && xHas && g.obj.Name() == xo.Name() && univ(g.obj) && (univ(xo) || xo.Parent() == types.Universe || !xo.Pos().IsValid()) {
+			// universe / builtin objects: XGo implements the Go builtins through its own builtin package; only the name is compared
+			agree++
+			continue
+		}
+		switch {
+		case gHas && !xHas:
+			class = "missing"
+		case !gHas && xHas:
+			class = "extra"
+		case g.obj.Name() != xo.Name():
+			class = "name"
+		case kindOf(g.obj) != kindOf(xo) || g.isDef != xIsDef:
+			class = "kind"
+		case typeStr(g.obj) != typeStr(xo):
+			class = "type"
+		case declStr(gDeclOff, g.obj) != declStr(xDeclOff, xo):
+			class = "decl"
+		}
+		if class == "" {
+			agree++
+			continue
+		}
+		diffs = append(diffs, fmt.Sprintf("%s:%s{go:%s|xgo:%s}", at, class, gs, xs))
 	}
 	if len(diffs) == 0 {
 		return "ok", n, agree
@@ -378,8 +411,19 @@ func compareGo(fset *token.FileSet, fname, src string, occs []occ, info *typesut
 func main() {
 	flag.Parse()
 	os.Chdir(*repo)
-	xgoImp = tool.NewImporter(nil, &env.XGo{Root: *repo, Version: "1.0"}, sharedFset)
-	goImp = importer.ForCompiler(gotoken.NewFileSet(), "source", nil)
+	imp := tool.NewImporter(nil, &env.XGo{Root: *repo, Version: "1.0"}, sharedFset)
+	if *impCache != "" {
+		imp.Cache().Load(*impCache)
+		defer imp.Cache().Save(*impCache)
+	}
+	xgoImp = imp
+	// go/types side: its own importer instance over the same export data (objects are never shared
+	// between the two sides; only printed names / kinds / type strings are compared)
+	imp2 := tool.NewImporter(nil, &env.XGo{Root: *repo, Version: "1.0"}, goFset)
+	if *impCache != "" {
+		imp2.Cache().Load(*impCache)
+	}
+	goImp = imp2
 	sc := bufio.NewScanner(os.Stdin)
 	sc.Buffer(make([]byte, 1<<20), 1<<28)
 	w := bufio.NewWriter(os.Stdout)
